@@ -246,6 +246,20 @@ fn static_corpus(c: &mut Corpus) {
         add(c, "date", s);
     }
     for s in [
+        "1700000000 +0000",
+        "0 -0000",
+        "-1 +1234",
+        "1 -9999",
+        "9223372036854775807 +9959",
+        "9223372036854775808 +0000",
+        "-9223372036854775808 -0100",
+        "-9223372036854775809 +0100",
+        "00000000000000000000001 +0530",
+        "42 +0099",
+    ] {
+        add(c, "date-raw", s);
+    }
+    for s in [
         "\"quoted\"",
         "\"a\\nb\"",
         "\"tab\\there\"",
